@@ -88,7 +88,10 @@ class Check:
                 for via in ('chain', 'unimock'):
                     texts.append(f"scenario p{k}_{via}\nvia {via}\npar threads={th} per={per} pre={pre}\nend\n")
             for n in ([1, 2, 3, 7] if tier == 'quick' else [1, 2, 3, 7, 50, 400]):
-                texts.append(f"scenario helper_{n}\nvia unimock\nhelper n={n}\nend\n")
+                for end in (0, 1, 2):
+                    texts.append(f"scenario helper_{n}_{end}\nvia unimock\nhelper n={n} end={end}\nend\n")
+            for end in (0, 1, 2):
+                texts.append(f"scenario returnsdrop_{end}\nvia unimock\nreturnsdrop end={end}\nend\n")
             for n, cl in [(1, 0), (3, 0), (3, 1), (6, 1)]:
                 texts.append(f"scenario unwinddrop_{n}_{cl}\nvia unimock\nunwinddrop n={n} clone={cl}\nend\n")
             rounds = 40 if tier == 'quick' else 600
@@ -136,6 +139,15 @@ class Check:
                     spec_bad.append((n, f"unexpected line {line}"))
                 elif mm.group(4) != mm.group(1):
                     spec_bad.append((n, f"{mm.group(1)} values lent by an instance that was then dropped while its thread was unwinding, {mm.group(4)} dropped (every lent value is dropped exactly once)"))
+                continue
+            if any(l.startswith('returnsdrop ') for l in r):
+                line = next(l for l in r if l.startswith('returnsdrop '))
+                mm = re.match(r'returnsdrop end=(\d) reads=\(77, 77\) early=\[(.*)\] dropped_after_end=\[(.*)\]$', line)
+                total += 1; nontriv += 1
+                if not mm:
+                    spec_bad.append((n, f"unexpected line {line}"))
+                elif mm.group(2) or mm.group(3) != '77':
+                    spec_bad.append((n, f"a value configured with returns() for a borrowed return must be dropped exactly once, when the instance ends ({['drop', 'verify()', 'report()'][int(mm.group(1))]}): dropped before the end [{mm.group(2)}], after it [{mm.group(3)}]"))
                 continue
             if any(l.startswith('helper ') for l in r):
                 line = next(l for l in r if l.startswith('helper '))
